@@ -62,7 +62,7 @@ RULE += (
     "(round trips are C09).  F states: str, same across variables, 0-based, 1-based, permuted ints, booleans, big ints; "
     "statenames stream for CPDs disagreeing on order/set.  G sizes: 1-node and edgeless networks, cardinality 1, "
     ">=9-variable factors and a 10-node network with int names, seed=0, empty evidence; "
-    "0-vs-None numeric options of the searches are C11's.  H magnitudes: potentials scaled by 2^+-900 (2^+-100 for "
+    "0-vs-None numeric options of the searches are C11's.  H magnitudes: potentials scaled by 2^+-900 (2^+-40 for "
     "float32), probabilities 2^-20..2^-40 and 40-bit probabilities, exact zeros; tolerances are RELATIVE to the exact "
     "rational.  I backends: numpy, torch float64, torch float32 for factor operations, exact inference (repr), "
     "histories and result independence; samplers/estimators are numpy-only in the property.  J variants: "
@@ -433,9 +433,9 @@ def cases(tier, seed):
         if k in (0, 3):
             backend = c["backend"] = "torch64"
         if k % 3 == 0:
-            big = 100 if backend == "torch32" else 900
+            big = 40 if backend == "torch32" else 900       # float32 holds 2^-126 .. 2^127 (entries go down to 2^-40)
             ea = rng.choice([-1, 1]) * rng.randint(big // 3, big)
-            c["scale"] = [ea, -ea + rng.randint(-40, 40)]
+            c["scale"] = [ea, -ea + rng.randint(-10, 10) * (1 if backend == "torch32" else 4)]
         out.append(c)
     # >= 9 variables in one factor / one answer, integer names (iteration order of a set of small ints is only
     # increasing below 8)
